@@ -154,8 +154,54 @@ def digest_trace(tr, limit=80):
     return out[-limit:]
 
 
+def prove_plain(uname, cfile, qual, spec, tier):
+    """Bounded stand-in without dfcc: a hand-written harness (spec['plain_harness']) builds the inputs, calls the translated
+    function and asserts the property-level clauses; all loops are unwound with unwinding assertions."""
+    cname = spec['_cname']
+    rec = {'function': qual, 'cname': cname, 'status': 'undecided', 'obligations': [], 'seconds': 0.0, 'backend': 'sat (plain cbmc, bounded)',
+           'reason': '', 'bounded': spec.get('bounded', 'bounded')}
+    gb = os.path.join(GEN, '%s.%s.plain.gb' % (uname, cname))
+    t0 = time.time()
+    rc, o, e, _ = run(['goto-cc', '-I' + ROOT, '--function', 'hp_' + cname, cfile, '-o', gb], 120)
+    if rc != 0:
+        rec['reason'] = 'goto-cc failed: ' + (e or o)[-1500:]
+        return rec
+    bound = spec['unwind'][tier] if isinstance(spec.get('unwind'), dict) else spec.get('unwind', 16)
+    cb = ['cbmc', gb, '--object-bits', '8'] + spec.get('checks', DEFAULT_CHECKS) + ['--unwind', str(bound), '--unwinding-assertions', '--json-ui']
+    cap = 600 if tier == 'quick' else 3600
+    rc, o, e, secs = run(cb, cap, mem_gb=spec.get('mem_gb', 16))
+    rec['cmd'] = ' '.join(cb)
+    rec['seconds'] = round(time.time() - t0, 2)
+    if rc == 'timeout':
+        rec['reason'] = 'cbmc timeout after %ds' % cap
+        return rec
+    res, status = parse_cbmc(o)
+    if res is None:
+        rec['reason'] = 'cbmc: %s %s' % (status, e[-500:])
+        return rec
+    obs = [{'name': x['property'], 'status': x['status'], 'description': x.get('description', ''),
+            'function': x.get('sourceLocation', {}).get('function', ''), 'line': x.get('sourceLocation', {}).get('line', ''),
+            'trace': digest_trace(x.get('trace'))} for x in res]
+    canary = [x for x in obs if 'VERIF_CANARY' in x['description']]
+    obs = [x for x in obs if 'VERIF_CANARY' not in x['description']]
+    rec['obligations'] = obs
+    if not obs:
+        rec['reason'] = 'no obligations generated'
+    elif all(x['status'] == 'SUCCESS' for x in obs):
+        if not canary or canary[0]['status'] != 'FAILURE':
+            rec['reason'] = 'vacuous: the end of the harness is unreachable'
+        else:
+            rec['status'] = 'proved'
+    else:
+        rec['status'] = 'failed'
+    rec['canary_reached'] = bool(canary and canary[0]['status'] == 'FAILURE')
+    return rec
+
+
 def prove_function(uname, t, cfile, qual, spec, tier, extra_replace):
     """Returns dict(function, cname, status, obligations[], seconds, cmd, reason)."""
+    if spec.get('plain_harness'):
+        return prove_plain(uname, cfile, qual, spec, tier)
     cname = spec['_cname']
     rec = {'function': qual, 'cname': cname, 'status': 'undecided', 'obligations': [], 'seconds': 0.0,
            'backend': spec.get('solver', 'sat'), 'reason': ''}
@@ -296,7 +342,10 @@ def prove_unit(uname, tier='quick', jobs=8, only=None):
     cfile = os.path.join(GEN, uname + '.c')
     harn = ''
     for qual, spec in unit['functions'].items():
-        harn += harness_for(t, spec['_cname'], spec)
+        if spec.get('plain_harness'):
+            harn += 'void hp_%s(void) {\n%s\n  __CPROVER_assert(0, "VERIF_CANARY end of harness reachable");\n}\n' % (spec['_cname'], spec['plain_harness'])
+        else:
+            harn += harness_for(t, spec['_cname'], spec)
     with open(cfile, 'w') as fh:
         fh.write(text + '\n' + harn)
     result['cfile'] = cfile
